@@ -122,7 +122,31 @@ def c05(tier):
     return c
 
 
-CHECKS = {"C05": c05, "C12": c12, "C01": c01, "C02": c02, "C03": c03, "C04": c04, "C08": c08, "C10": c10}
+def c13(tier):
+    c = _topo("C13", 13, tier, 50, 1500)
+    c.rule = ("one evaluation = one history of distances ops (add with valid/invalid kinds, flags, sizes 0-6, homogeneous/mixed objects, grouping; "
+              "get/by_type/by_depth/by_name with short arrays; removals; transforms on returned copies) interleaved with restrict, dup, xml_restart; "
+              "the reference list is compared with what the topology reports after every op; distinct_nontrivial = distinct (canonical dump after an op, op kind) pairs")
+    return c
+
+
+def c14(tier):
+    c = _topo("C14", 14, tier, 50, 1500)
+    c.rule = ("one evaluation = one history of memattr register/set_value (cpuset initiators kept pairwise disjoint per target, object initiators, "
+              "missing initiators, read-only attributes) and get_value/targets/initiators/best-of/local-node/default-nodeset queries, interleaved "
+              "with restrict, dup, xml_restart; reference table compared after every op; distinct_nontrivial = distinct (canonical dump after an op, op kind) pairs")
+    return c
+
+
+def c15(tier):
+    c = _topo("C15", 15, tier, 30, 1200)
+    c.rule = ("one evaluation = one history of cpukinds_register calls (cpusets inside/outside/straddling, forced efficiencies -3..4, info arrays, bad "
+              "flags, NULL/empty sets) interleaved with restrict, dup, xml_restart and by-cpuset queries; the reference partition (PUs grouped by the "
+              "set of covering registrations) is compared after every op; distinct_nontrivial = distinct (canonical dump after an op, op kind) pairs")
+    return c
+
+
+CHECKS = {"C13": c13, "C14": c14, "C15": c15, "C05": c05, "C12": c12, "C01": c01, "C02": c02, "C03": c03, "C04": c04, "C08": c08, "C10": c10}
 
 
 # ------------------------------------------------------------------------------------------------ C17 (scheduler machine)
